@@ -551,8 +551,16 @@ def read_facts(fails):
         ansm = re.search(r"\blet\s+(%s)\s*=\s*%s\s*\.\s*is_some\s*\(\s*\)\s*;" % (W, acc), stage2)
         for pat, body in top_arms(m3):
             if pat.startswith("_"):
-                fb = re.fullmatch(r"if!(\w+)\{push_queue\([^;]*\);\}", sq(body))
+                fb = re.fullmatch(r"if!(\w+)\{push_queue\(([^;]*)\);\}", sq(body))
                 fallback = bool(fb)
+                if fb:
+                    what = fb.group(2)
+                    if re.match(r"(?:worker_response_error|WorkerResponse::error)\(", what):
+                        facts["flags"]["fallback_refuses"] = True
+                    elif re.match(r"WorkerResponse::ok(?:_with_content)?\(", what):
+                        facts["flags"]["fallback_refuses"] = False
+                    else:
+                        raise Unreadable("notify_proxys: the status of the fallback answer `%s` is not recognised" % what[:60])
                 if not fallback and "push_queue(" in body:
                     fails.append("notify_proxys: the default arm of the last match answers unconditionally")
                 if fallback and not (ansm and ansm.group(1) == fb.group(1)):
@@ -635,7 +643,7 @@ def read_facts(fails):
     return facts
 
 
-FLAGS = ["fallback_answers", "second_soft_stop_refused", "hard_stop_answers_soft", "deactivate_frees_slot", "remove_frees_slot"]
+FLAGS = ["fallback_answers", "second_soft_stop_refused", "hard_stop_answers_soft", "deactivate_frees_slot", "remove_frees_slot", "fallback_refuses"]
 
 
 def translate(snapshot=False):
@@ -685,7 +693,8 @@ def translate(snapshot=False):
             "Definition second_soft_stop_refused : bool := %s.\n"
             "Definition hard_stop_answers_soft : bool := %s.\n"
             "Definition deactivate_frees_slot : bool := %s.\n"
-            "Definition remove_frees_slot : bool := %s.\n\n"
+            "Definition remove_frees_slot : bool := %s.\n"
+            "Definition fallback_refuses : bool := %s.\n\n"
             "(* variants ConfigState::dispatch accepts without touching the state *)\n"
             "Definition state_noop : list string := [%s].\n\n"
             "Definition arms_table : list arm_row := [\n%s\n].\n"
@@ -703,7 +712,7 @@ WORKER_VERBS = ("AddCluster RemoveCluster AddBackend RemoveBackend AddHttpFronte
                 "QueryClustersByDomain QueryCertificatesFromWorkers SetHealthCheck RemoveHealthCheck SetMaxConnectionsPerIp "
                 "QueryMaxConnectionsPerIp SetMetricDetail ReturnListenSockets").split()
 UNSERVED = ("None SaveState LoadState ListWorkers ListFrontends ListListeners CountRequests SubscribeEvents UpgradeMain "
-            "UpgradeWorker LaunchWorker ReloadConfiguration").split()
+            "UpgradeWorker LaunchWorker ReloadConfiguration QueryCertificatesFromTheState QueryHealthChecks").split()
 BOOT = [("AddHttpListener", 0), ("AddHttpsListener", 0), ("AddTcpListener", 0), ("AddUdpListener", 0),
         ("AddCluster", 0), ("AddCluster", 1), ("AddBackend", 0), ("AddBackend", 1), ("AddHttpFrontend", 0),
         ("AddCertificate", 0), ("AddHttpsFrontend", 1), ("AddTcpFrontend", 0), ("AddUdpFrontend", 1),
